@@ -304,15 +304,20 @@ def r014(ctx):
                     while pp.get("k") in ("pref", "pderef"):
                         pp = pp["pat"]
                     if pp.get("k") in ("pvariant", "pconst", "ppath") and peel(strip_try(c_["scrut"])).get("k") in ("blockexpr", "match", "if", "local"):
-                        alts = []
-                        for cs_, lf in norm_.result_table(ix, strip_try(c_["scrut"]), unwrap=()):
-                            lf = peel(lf)
-                            lp = lf.get("path") if lf.get("k") == "def" else (callee(lf) if lf.get("k") == "ctor" else None)
-                            if lp is None:
-                                alts = None
+                        # leaves through Some(..)/Ok(..) first (a classification enum wrapped in an Option); if a leaf is not a constructor then,
+                        # with the wrappers kept (the pattern is on the Option itself)
+                        for unwrap_ in (("Option::Some", "Result::Ok"), ()):
+                            alts = []
+                            for cs_, lf in norm_.result_table(ix, strip_try(c_["scrut"]), unwrap=unwrap_):
+                                lf = peel(lf)
+                                lp = lf.get("path") if lf.get("k") == "def" else (callee(lf) if lf.get("k") == "ctor" else None)
+                                if lp is None:
+                                    alts = None
+                                    break
+                                if lp == pp.get("path"):
+                                    alts.append(cs_)
+                            if alts:
                                 break
-                            if lp == pp.get("path"):
-                                alts.append(cs_)
                 if alts:
                     new = []
                     for o in out:
